@@ -68,6 +68,7 @@ pub fn generate(input: TokenStream) -> TokenStream {
     for attr in &mut item.attrs {
         parser.try_parse_logos(attr);
     }
+    parser.check_type_params();
 
     debug!("Iterating through subpatterns and skips");
 
